@@ -69,6 +69,42 @@ def _make_raising(ident):
     return raising
 
 
+import contextlib  # noqa: E402
+
+
+_REBINDINGS = None
+
+
+@contextlib.contextmanager
+def rebound():
+    """Bind the names of all callable recording factories to other callables (their calls are
+    logged with the kind "re-<kind>"); the previous bindings come back afterwards"""
+    global _REBINDINGS
+    if _REBINDINGS is None:
+        _REBINDINGS = [
+            (owner, name, _make_function("re-" + kind, ident))
+            for ident in range(COUNT)
+            for owner, name, kind in ((None, "RecClass%d" % ident, "cls"),
+                                      (None, "rec_function_%d" % ident, "fn"),
+                                      (Holder.Inner, "make_%d" % ident, "attr"))]
+    saved = []
+    for owner, name, new in _REBINDINGS:
+        if owner is None:
+            saved.append((owner, name, globals()[name]))
+            globals()[name] = new
+        else:
+            saved.append((owner, name, owner.__dict__[name]))
+            setattr(owner, name, staticmethod(new))
+    try:
+        yield
+    finally:
+        for owner, name, old in saved:
+            if owner is None:
+                globals()[name] = old
+            else:
+                setattr(owner, name, old)
+
+
 for _ident in range(COUNT):
     globals()["RecClass%d" % _ident] = _make_class(_ident)
     globals()["rec_function_%d" % _ident] = _make_function("fn", _ident)
